@@ -118,9 +118,11 @@ def ar_task(item):
     d, kind, name, files = item
     if os.path.exists(os.path.join(d, name)):
         return 0
-    r = subprocess.run(["ar", "rcD" if kind == "regular" else "rcTD", name, *files], cwd=d,
-                       stdout=subprocess.PIPE, stderr=subprocess.PIPE)
-    return r.returncode
+    tmp = "%s.%d.tmp" % (name, os.getpid())      # a killed ar must not leave a partial archive
+    rc, _err = symfam.run_tool(["ar", "rcD" if kind == "regular" else "rcTD", tmp, *files], d)
+    if rc == 0:
+        os.replace(os.path.join(d, tmp), os.path.join(d, name))
+    return rc
 
 
 def archive_name(n, kind, mem):
@@ -220,10 +222,8 @@ def lld_task(item):
             os.unlink(outp)
         except OSError:
             pass
-        p = subprocess.run(["ld.lld", *argv, "-o", outp], cwd=d, stdin=subprocess.DEVNULL,
-                           stdout=subprocess.PIPE, stderr=subprocess.PIPE)
-        res.append((cid, p.returncode, markers_of(outp) if p.returncode == 0 else None,
-                    p.stderr.decode("utf-8", "replace")[-200:]))
+        rc, err = symfam.run_tool(["ld.lld", *argv, "-o", outp], d)
+        res.append((cid, rc, markers_of(outp) if rc == 0 else None, err[-200:]))
     return res
 
 
@@ -349,7 +349,8 @@ def sched_cfg(base):
     objs = graph_program(SCHED_OBJS, d)
     mpaths = graph_program(SCHED_MEMBERS, d)
     if not os.path.exists(os.path.join(d, "libm.a")):
-        subprocess.run(["ar", "rcD", "libm.a", *mpaths], cwd=d, check=True)
+        if symfam.run_tool(["ar", "rcD", "libm.a", *mpaths], d)[0] != 0:
+            raise RuntimeError("ar failed")
     return dict(wild=vlib.WILD, cwd=d, regions="resolve", timeout=120,
                 argv=["--no-fork", "--threads=16", "--no-gc-sections", *objs, "libm.a", "-o", "{out}"],
                 env={"WILD_FILES_PER_GROUP": "1"})
@@ -434,9 +435,8 @@ def replay(chk, path):
             want = dup_model(member)
         rc, msg = symfam.server_link([*argv, "-o", outp], cwd=d)
         got = verdict(rc, markers_of(outp) if rc == 0 else None)
-        p = subprocess.run(["ld.lld", *argv, "-o", outp + ".lld"], cwd=d, stdout=subprocess.PIPE,
-                           stderr=subprocess.PIPE)
-        lv = verdict(p.returncode, markers_of(outp + ".lld") if p.returncode == 0 else None)
+        lrc, _err = symfam.run_tool(["ld.lld", *argv, "-o", outp + ".lld"], d)
+        lv = verdict(lrc, markers_of(outp + ".lld") if lrc == 0 else None)
     print("command :", "wild", " ".join(argv), "-o out")
     print("fixpoint:", vtext(want))
     print("ld.lld  :", vtext(lv))
